@@ -590,7 +590,7 @@ pub fn plan_for(id: &str, tier: &str) -> Option<Plan> {
         kinds: all.clone(),
         profile: GenProfile::default(),
         compare: Compare::None,
-        n_random: n(180, 6000),
+        n_random: n(180, 3000),
         scope: None,
         config: Config { snapshot_days: 14, snapshot_versions: 4 },
         walk_every: 1,
@@ -609,7 +609,7 @@ pub fn plan_for(id: &str, tier: &str) -> Option<Plan> {
             p.allowlisted_variant = true;
             p.mon.chain = true;
             p.binary_every = if thorough { 6 } else { 16 };
-            p.long = (n(2, 40), n(600, 2000));
+            p.long = (n(2, 20), n(600, 2000));
             p.required = vec!["AddVersion|", "base=id", "arg=foreign|conflict", "arg=base", "|accepted"];
             p.rule = "random adversarial multi-client histories (nil/latest/stale/base/fresh/foreign ids, nil and non-nil first parent, reopen) on 5 subjects; after every operation every client's chain is walked from its base through the same entry point and, for SQLite, all rows are scanned for forks/orphans. A situation = (operation, client state class, argument class, outcome); distinct_nontrivial counts distinct situations observed. Concurrent part: the E2 scenarios in which only AddVersion requests overlap (pairs, triples, two-request programs; never-seen, empty and existing clients; all backends; both entries) under the controlled scheduler with the differential oracle (final state includes every known id that exists as a version and the child index, so a fork or an orphan cannot match any one-at-a-time order).";
         }
@@ -618,7 +618,7 @@ pub fn plan_for(id: &str, tier: &str) -> Option<Plan> {
             p.allowlisted_variant = true;
             p.mon.cas = true;
             p.scope = Some(Scope { kind: ScopeKind::Parent, max_len: n(5, 8) });
-            p.n_random = n(150, 5000);
+            p.n_random = n(150, 3000);
             p.profile.valid_add_pct = 45;
             p.profile.w_kind = [60, 8, 12, 5, 15];
             p.required = vec!["AddVersion|absent", "arg=latest|accepted", "arg=older|conflict", "arg=base|conflict", "arg=foreign|conflict", "arg=unknown|conflict", "arg=nil|conflict", "base=id"];
@@ -629,8 +629,8 @@ pub fn plan_for(id: &str, tier: &str) -> Option<Plan> {
             p.mon.immut = true;
             p.allowlisted_variant = true;
             p.binary_every = if thorough { 6 } else { 16 };
-            p.n_random = n(140, 5000);
-            p.long = (n(1, 24), n(400, 2000));
+            p.n_random = n(140, 2500);
+            p.long = (n(1, 12), n(400, 2000));
             p.required = vec!["AddSnapshot|", "|conflict", "|accepted"];
             p.rule = "every accepted (version, parent, payload) is re-read through GetChildVersion after later operations (a random third after every operation, all of them every 10 operations, after every reopen and at the end), across snapshots, rejected requests, other clients' activity and reopen. distinct_nontrivial = distinct situations that occurred while accepted versions were being re-read. Concurrent part: uncontrolled stress (6-12 threads on one storage / one SQLite object per thread / sockets) after which every version whose acceptance was acknowledged must still be served with its parent and payload.";
         }
@@ -663,7 +663,7 @@ pub fn plan_for(id: &str, tier: &str) -> Option<Plan> {
             p.allowlisted_variant = true;
             p.mon.snapwin = true;
             p.scope = Some(Scope { kind: ScopeKind::Snapshot, max_len: n(6, 8) });
-            p.n_random = n(150, 5000);
+            p.n_random = n(150, 3000);
             p.profile.w_kind = [45, 5, 40, 5, 5];
             p.profile.valid_add_pct = 85;
             p.required = vec!["snapwin:accept:back5", "snapwin:accept:back1", "snapwin:decline:arg=back6", "snapwin:decline:arg=nil", "snapwin:decline:arg=foreign", "snapwin:accept:back2:cur=back3", "snapwin:decline:arg=back3:back3"];
@@ -674,7 +674,7 @@ pub fn plan_for(id: &str, tier: &str) -> Option<Plan> {
             p.allowlisted_variant = true;
             p.mon.snapget = true;
             p.profile.pause_per_10k = 4;
-            p.n_random = n(220, 6000);
+            p.n_random = n(220, 3000);
             p.profile.w_kind = [45, 5, 35, 10, 5];
             p.profile.valid_add_pct = 80;
             p.required = vec!["getsnapshot:new", "getsnapshot:kept", "getsnapshot:none"];
@@ -695,7 +695,7 @@ pub fn plan_for(id: &str, tier: &str) -> Option<Plan> {
                 Kind::MEM_HTTP,
                 Kind { backend: Backend::Sqlite, entry: Entry::Http, reopen_pct: 40, socket: false, peers: false, pinned_first: false },
             ];
-            p.n_random = n(260, 6000);
+            p.n_random = n(260, 3500);
             p.required = vec!["AddSnapshot|", "GetSnapshot|", "|conflict"];
             p.rule = "identical symbolic histories in lock step on in-memory, SQLite and SQLite reopened at 10/50/100% of the gaps (new storage object, schema setup re-run), library and HTTP entries compared within the same entry; responses abstracted by id role and the client record (latest, snapshot version, versions-since) compared after every operation.";
         }
@@ -714,7 +714,7 @@ pub fn plan_for(id: &str, tier: &str) -> Option<Plan> {
             p.property = "C18";
             p.allowlisted_variant = true;
             p.mon.frame = true;
-            p.n_random = n(150, 5000);
+            p.n_random = n(150, 3000);
             p.profile.w_kind = [30, 25, 25, 12, 8];
             p.profile.valid_add_pct = 40;
             p.required = vec!["frame:GetChildVersion:found", "frame:GetChildVersion:gone", "frame:GetChildVersion:not-found", "frame:GetSnapshot:snapshot", "frame:AddVersion:conflict", "frame:AddSnapshot:declined", "frame:refused:add-version with empty body from a never-seen client", "frame:refused:add-snapshot with empty body", "frame:refused:request to an unknown route"];
